@@ -31,9 +31,13 @@ func args(kv ...interface{}) map[string]interface{} {
 // operations), so the large rounds run free.
 func lockstep(r *rand.Rand, goroutines int) bool { return goroutines <= 8 && r.Intn(2) == 0 }
 
-// shape draws the number of goroutines (2..16) and distributes at most maxOps operations over them.
+// MaxG bounds the number of goroutines of a round (2..MaxG). The race build runs with 8: its instrumented
+// operations are slow, nearly all of them overlap, and the search for a linearization grows with 2^overlap.
+var MaxG = 16
+
+// shape draws the number of goroutines (2..MaxG) and distributes at most maxOps operations over them.
 func shape(r *rand.Rand, maxOps int) []int {
-	g := 2 + r.Intn(15)
+	g := 2 + r.Intn(MaxG-1)
 	if r.Intn(3) == 0 {
 		g = 2 + r.Intn(3) // long per-goroutine programs
 	}
